@@ -11,12 +11,20 @@ use std::task::Poll;
 
 /// Two-slot FIFO processor whose `process` needs `delay` extra polls before it stores its input and
 /// whose `next` waits (Pending) while empty.
-pub struct Fifo { q: Cell<[Option<u8>; 2]>, delay: u8 }
+pub struct Fifo { q: Cell<[Option<u8>; 4]>, delay: u8 }
 impl Fifo {
-    pub fn new(items: [Option<u8>; 2], delay: u8) -> Self { Self { q: Cell::new(items), delay } }
-    fn push(&self, x: u8) { let mut q = self.q.get(); if q[0].is_none() { q[0] = Some(x); } else { assert!(q[1].is_none(), "harness: fifo bound"); q[1] = Some(x); } self.q.set(q); }
-    fn pop(&self) -> Option<u8> { let mut q = self.q.get(); let x = q[0]; if x.is_some() { q[0] = q[1]; q[1] = None; self.q.set(q); } x }
-    pub fn len(&self) -> usize { let q = self.q.get(); q[0].is_some() as usize + q[1].is_some() as usize }
+    pub fn new(items: [Option<u8>; 2], delay: u8) -> Self { Self { q: Cell::new([items[0], items[1], None, None]), delay } }
+    pub fn new4(items: [Option<u8>; 4], delay: u8) -> Self { Self { q: Cell::new(items), delay } }
+    fn push(&self, x: u8) {
+        let mut q = self.q.get();
+        let mut i = 0;
+        let mut done = false;
+        while i < 4 { if !done && q[i].is_none() { q[i] = Some(x); done = true; } i += 1; }
+        assert!(done, "harness: fifo bound");
+        self.q.set(q);
+    }
+    fn pop(&self) -> Option<u8> { let mut q = self.q.get(); let x = q[0]; if x.is_some() { q[0] = q[1]; q[1] = q[2]; q[2] = q[3]; q[3] = None; self.q.set(q); } x }
+    pub fn len(&self) -> usize { let q = self.q.get(); q[0].is_some() as usize + q[1].is_some() as usize + q[2].is_some() as usize + q[3].is_some() as usize }
 }
 impl Processor<u8> for Fifo {
     type Output = u8;
@@ -110,11 +118,42 @@ pub fn one_item_exactly_once() {
     vassert!(z.is_none(), "C13.no-duplicate-one: the output is not delivered a second time");
 }
 
+/// (d) a burst: four items are already waiting in the first stage; four next() calls deliver all of
+/// them, in order, none lost (thorough tier).
+#[cfg_attr(kani, kani::proof)]
+#[cfg_attr(kani, kani::unwind(7))]
+pub fn burst_of_four_ready_items_all_delivered() {
+    unsafe { tokio::macros::CHOICE = Some(choice); }
+    let a = sym::any_u8();
+    let c = ComposedProcessors { first: Fifo::new4([Some(a), Some(1), Some(2), Some(3)], 0), second: Fifo::new4([None, None, None, None], 0) };
+    macro_rules! run { ($f:expr) => {{
+        let mut f = std::pin::pin!($f);
+        let mut out = None;
+        if let Poll::Ready(r) = poll_once(f.as_mut()) { out = Some(r); }
+        if out.is_none() { if let Poll::Ready(r) = poll_once(f.as_mut()) { out = Some(r); } }
+        if out.is_none() { if let Poll::Ready(r) = poll_once(f.as_mut()) { out = Some(r); } }
+        if out.is_none() { if let Poll::Ready(r) = poll_once(f.as_mut()) { out = Some(r); } }
+        if out.is_none() { if let Poll::Ready(r) = poll_once(f.as_mut()) { out = Some(r); } }
+        if out.is_none() { if let Poll::Ready(r) = poll_once(f.as_mut()) { out = Some(r); } }
+        out
+    }}; }
+    // (every forwarded item costs one yield_now: up to 4 pending polls before the first output)
+    let w = run!(c.next());
+    let x = run!(c.next());
+    let y = run!(c.next());
+    let z = run!(c.next());
+    vassert!(w == Some(Ok(a)) && x == Some(Ok(1)), "C13.burst-first-two: the first two items of a burst come out in order");
+    vassert!(y == Some(Ok(2)) && z == Some(Ok(3)), "C13.burst-all: every item of a burst waiting in the first stage is delivered, none is dropped");
+    vassert!(c.first.len() + c.second.len() == 0, "C13.burst-drained: nothing is left behind or duplicated");
+    std::mem::forget(c);
+}
+
 pub fn dispatch(name: &str) -> bool {
     match name {
         "c13::cancelled_next_loses_no_intermediate_item" => cancelled_next_loses_no_intermediate_item(),
         "c13::two_items_exactly_once_in_order" => two_items_exactly_once_in_order(),
         "c13::one_item_exactly_once" => one_item_exactly_once(),
+        "c13::burst_of_four_ready_items_all_delivered" => burst_of_four_ready_items_all_delivered(),
         _ => return false,
     }
     true
